@@ -112,8 +112,9 @@ CHECKS = {
             '32-document pool x 3 context recipes sharing one database object per recipe and the '
             'global argument-parser cache; every step equals the fresh-interpreter result and '
             'leaves the database snapshot unchanged.',
-            'Finite document pool (state leaking only through other inputs is not seen); freeze() '
-            'flag excluded from the snapshot.',
+            'Finite document pool covering every argument parser class the library ships (state '
+            'leaking only through other inputs is not seen); freeze() flag excluded from the '
+            'snapshot.',
             'DESIGN.md 5 C09'),
     'C10': ('exploration',
             'bounded-exhaustive strings differentially against a recursive-descent reference '
@@ -195,8 +196,8 @@ CHECKS = {
     'C17': ('exploration',
             'Hypothesis-generated sub_context() chains; differential derived-vs-fresh state on '
             'exhaustive short strings over the chain\'s own delimiter alphabet',
-            'Hundreds (quick) / thousands (thorough) of chains of 1-5 sub_context calls over all '
-            'field groups; for each chain every string <= 3/4 tokens over an alphabet containing '
+            'All chains of <= 3 (quick) / <= 4 (thorough) steps over 13 math-related steps plus '
+            'hundreds / thousands of random chains of 1-5 sub_context calls over all field groups; for each chain every string <= 3/4 tokens over an alphabet containing '
             'every configured delimiter is tokenized (strict + tolerant) and parsed under the '
             'derived and the freshly constructed state; parents are snapshot before and after.',
             'Only public API is used; equality of token tuples and canonical tree dumps.',
